@@ -15,12 +15,12 @@ CONSTANTS MaxLen,        \* enumerate every script up to this length (0: use the
 
 Scripts == IF MaxLen = 0 THEN JsonDeserialize(IOEnv.SCRIPTS) ELSE <<>>
 
-VARIABLES script, sid, i, processed, synchronized, out, ran, reruns, limit, lastErr, counter, warnings
-vars == <<script, sid, i, processed, synchronized, out, ran, reruns, limit, lastErr, counter, warnings>>
+VARIABLES script, sid, i, processed, synchronized, out, ran, reruns, limit, lastErr, counter, warnings, checks
+vars == <<script, sid, i, processed, synchronized, out, ran, reruns, limit, lastErr, counter, warnings, checks>>
 
 Init == /\ script = <<>> /\ sid \in (IF MaxLen = 0 THEN 1..Len(Scripts) ELSE {0})
         /\ i = 0 /\ processed = 0 /\ synchronized = 0 /\ out = <<>> /\ ran = FALSE /\ reruns = 0
-        /\ limit = 8 /\ lastErr = 0 /\ counter = 0 /\ warnings = 0
+        /\ limit = 8 /\ lastErr = 0 /\ counter = 0 /\ warnings = 0 /\ checks = 0
 
 \* _ErrorCounter.error_occur(error_id)
 ErrorOccur(id) == LET c == IF id = lastErr + 1 THEN counter + 1 ELSE 1 IN
@@ -41,14 +41,18 @@ Step(o) == /\ ~ran
                    /\ UNCHANGED <<limit, lastErr, counter, warnings>>
               ELSE /\ ErrorOccur(processed) /\ UNCHANGED <<synchronized, out>>
            /\ processed' = processed + 1
-           /\ UNCHANGED <<sid, ran, reruns>>
+           /\ UNCHANGED <<sid, ran, reruns, checks>>
 \* the loop ends (any length when enumerating; at the end of the script otherwise)
 Finish == /\ ~ran /\ (MaxLen = 0 => i = Len(Scripts[sid]))
-          /\ ran' = TRUE /\ UNCHANGED <<script, sid, i, processed, synchronized, out, reruns, limit, lastErr, counter, warnings>>
+          /\ ran' = TRUE /\ UNCHANGED <<script, sid, i, processed, synchronized, out, reruns, limit, lastErr, counter, warnings, checks>>
 \* a second run() is refused
 RunAgain == /\ ran /\ reruns < 1 /\ reruns' = reruns + 1
-            /\ UNCHANGED <<script, sid, i, processed, synchronized, out, ran, limit, lastErr, counter, warnings>>
-Next == (\E o \in {"A", "R", "N"} : Step(o)) \/ Finish \/ RunAgain
+            /\ UNCHANGED <<script, sid, i, processed, synchronized, out, ran, limit, lastErr, counter, warnings, checks>>
+\* check(): a dry run of the user function on a few traces picked at random, before run(); it is an observer: nothing the run
+\* relies on (counters, output position, error counter) may change, whatever the function answers
+DryCheck == /\ ~ran /\ i = 0 /\ checks < 1 /\ checks' = checks + 1
+            /\ UNCHANGED <<script, sid, i, processed, synchronized, out, ran, reruns, limit, lastErr, counter, warnings>>
+Next == (\E o \in {"A", "R", "N"} : Step(o)) \/ Finish \/ RunAgain \/ DryCheck
 Spec == Init /\ [][Next]_vars
 
 \* ---- P ----------------------------------------------------------------------------------------------------
@@ -57,5 +61,5 @@ OutputIsAcceptedInOrder == out = Accepted
 CountersMatch == processed = Len(script) /\ synchronized = Len(Accepted)
 SecondRunRefused == [][ran => UNCHANGED <<script, processed, synchronized, out>>]_vars
 \* K lemma about the warning rule: one warning per crossing of the doubling limit by a run of consecutive failures
-Emit == (Gen /\ ran /\ reruns = 0) => PrintT(<<"EMIT", ToJson([script |-> script, out |-> out, processed |-> processed, synchronized |-> synchronized, warnings |-> warnings, sid |-> sid])>>)
+Emit == (Gen /\ ran /\ reruns = 0) => PrintT(<<"EMIT", ToJson([script |-> script, out |-> out, processed |-> processed, synchronized |-> synchronized, warnings |-> warnings, sid |-> sid, checked |-> checks])>>)
 =============================================================================
